@@ -6,8 +6,10 @@ using namespace nifly;
 
 namespace vh {
 namespace {
+// access to the protected segmentation of a sub-index shape without casting the object to a type it does not have:
+// a derived class may form the pointer to the member, which applies to any BSSubIndexTriShape
 struct SegPeek : BSSubIndexTriShape {
-	using BSSubIndexTriShape::segmentation;
+	static auto member() { return &SegPeek::segmentation; }
 };
 std::string trisJson(const std::vector<Triangle>& t) {
 	JArr a;
@@ -225,7 +227,7 @@ std::string projectShape(NifFile& nif, NiShape* shape, ContentIds& ids) {
 	// --- segments (FO4)
 	JArr segs, segTri, segInfo;
 	if (auto sit = dynamic_cast<BSSubIndexTriShape*>(shape)) {
-		auto& sg = static_cast<SegPeek*>(sit)->segmentation;
+		auto& sg = sit->*SegPeek::member();
 		for (auto& s : sg.segments) {
 			JObj js;
 			js.add("start", (long long) s.startIndex).add("n", (long long) s.numPrimitives);
